@@ -1052,6 +1052,16 @@ class Exec:
             (exc.id if isinstance(exc, ast.Name) else 'Exception')
         return [(ps, 'raise', name)]
 
+    def st_Assert(self, st, ps, exits):
+        # `assert cond`: raises AssertionError when cond is false (an exception the contract has to allow, or -- the usual case -- an
+        # obligation that the assertion never fires); execution continues under cond
+        c = self.ev(st.test, ps, exits)
+        if isinstance(c, bool):
+            if c: return [(ps, 'next', None)]
+            return [(ps, 'raise', 'AssertionError')]
+        self.raise_if(ps, z3.Not(zbool(c)), 'AssertionError', exits)
+        return [(ps, 'next', None)]
+
     def st_Break(self, st, ps, exits): return [(ps, 'break', None)]
 
     def st_Continue(self, st, ps, exits): return [(ps, 'continue', None)]
